@@ -2,6 +2,9 @@
 # Sensitivity proof: every mutant in /verif/mutants (a realistic change that breaks a property)
 # must make that property's quick check exit 1, and the replay file it writes must reproduce.
 # Applies each patch to /repo's working tree and reverts it straight afterwards.
+# Because it patches /repo in place, nothing else that builds from /repo (another check, a
+# background `vp run`) may be running meanwhile; on a mirror (tools/matrix.sh with MX_KEEP=1)
+# the same script works on the mirror's own worktree: cd <mirror>/verif && ./check sensitivity
 #   tools/sensitivity.sh [name-filter]
 cd "$(dirname "$0")/.."
 V="$(pwd)"
